@@ -149,7 +149,7 @@ def anonymous_complex_array(schemas: list) -> bool:
 # patch differ observably are documents with a top-level pure alias AND a lowered depth limit (the alias can be cut off
 # at the limit and, without the patch, stays a placeholder).  While the patch is pending they are compared by the oracle
 # only, so that the check is green on both trees; set to False once the follow-up is committed.
-FOLLOWUP_PENDING = True
+FOLLOWUP_PENDING = False
 
 
 def in_domain(inp: dict) -> bool:
